@@ -115,7 +115,7 @@ func c10History(c *core.Ctx, r *core.Rand, t *dyn.TypeOps, al signal.Allocator, 
 	conv := sameTypeConv(t)
 	var out []*c10out
 	var private []*c10out // buffers that moved away from pool storage by a growing Append and stay with their holder
-	var pins []dyn.Buf // everything ever seen: addresses cannot be recycled
+	var pins []dyn.Buf    // everything ever seen: addresses cannot be recycled
 	putHdr := map[uintptr]bool{}
 	putBase := map[uintptr]bool{}
 	var hist []string
@@ -354,6 +354,14 @@ func c10History(c *core.Ctx, r *core.Rand, t *dyn.TypeOps, al signal.Allocator, 
 						src.SetSample(i, stamp())
 					}
 					b.Append(src)
+					if r.Chance(1, 2) {
+						// the holder tries to put the grown buffer: its total capacity is
+						// not the pool's, so the pool must refuse it (C15 decides whether
+						// it panics) and stay as it was
+						core.Guard(func() { pools[r.Intn(len(pools))].Put(b) })
+						what += ";put(grown buffer: must be refused)"
+						c.Obs("puts_of_a_grown_buffer_attempted", 1)
+					}
 					pr := &c10out{b: b, lo: b.RawBase(), hi: b.RawBase() + uintptr(b.RawCap()*t.SizeOf)}
 					c10Snap(pr)
 					private = append(private, pr)
